@@ -326,7 +326,9 @@ def make_case(seed, i, force_end=None):
                 op = "toggle %s.%s -> %s" % (t, f, not cur_v)
             log.append("manifest: " + op)
         elif kind == "break_repair":
-            mfs = model_files_recursive(cur)
+            # (never the file that keeps the package invalid for good: while it is being saved in place it is empty for a moment,
+            #  an empty model file is a valid one, and a regeneration that reads it right then rightly writes output)
+            mfs = [q for q in model_files_recursive(cur) if q != invalid_from_start]
             if mfs:
                 p = r.choice(mfs)
                 broken = cur[p] + "\nOops: !record\n  fields: [\n"
@@ -335,7 +337,7 @@ def make_case(seed, i, force_end=None):
                 log.append("break and repair " + p)
             continue
         elif kind == "touch":
-            mfs = model_files_recursive(cur)
+            mfs = [q for q in model_files_recursive(cur) if q != invalid_from_start]
             if mfs:
                 p = r.choice(mfs)
                 edits.append({"kind": "write", "path": p, "data": cur[p], "steps": r.randint(1, 3)})
